@@ -112,7 +112,7 @@ func decodeC03(a [][]byte) []c03Req {
 func init() {
 	Register(&Prop{
 		ID: "C03", NoShrink: true,
-		Rule: "pipelines of 1..4 requests (GET/HEAD/POST x HTTP/1.0 keep-alive/1.1) whose handlers build the response by generated programs: status 200..999 incl. 204/304, status message, added headers (repeated names), cookies, " +
+		Rule: "pipelines of 1..4 requests (GET/HEAD/POST x HTTP/1.0 keep-alive/1.1) whose handlers build the response by generated programs: every status 200..999 (each once with a body and a following request; 204/304 weighted), status message, added headers (repeated names), cookies, " +
 			"body set/append/raw, SetBodyStream with declared size exact / short / long (by more than a buffer) / unknown, SetBodyStreamWriter, SkipBody; the wire is parsed with net/http.ReadResponse (the independent parser) knowing the request methods; " +
 			"non-trivial = some response carries a body or a stream; distinct = distinct input",
 		Parallel: true,
@@ -225,6 +225,13 @@ func init() {
 			}
 			cfgs := []string{"", "", "rm=1"}
 			statuses := []int{0, 0, 200, 201, 204, 304, 404, 500, 599, 299, 700, 999}
+			// every status 200..999 once, with a body, followed by a second request (a response that is framed wrongly
+			// swallows or desynchronises the next one)
+			for st := 200; st <= 999; st++ {
+				first := []string{r.Pick([]string{"GET", "POST"}), "HTTP/1.1", strconv.Itoa(st), "", "hello", "body", "0", "0", "", "", "0"}
+				second := []string{"GET", "HTTP/1.1", "0", "", "next", "body", "0", "0", "", "", "0"}
+				emit("program", B(cfgs[r.Intn(len(cfgs))]), B(strings.Join(first, "\x1f")), B(strings.Join(second, "\x1f")))
+			}
 			for i := 0; i < n; i++ {
 				args := [][]byte{B(cfgs[r.Intn(len(cfgs))])}
 				for j, m := 0, 1+r.Intn(4); j < m; j++ {
